@@ -106,8 +106,11 @@ def c18(ctx, t0):
     res = []
     if want(ctx, 'loader'):
         res.append(ctx.run_child('loader', [hx, 'c18'], T(ctx, 400, 3000)))
+    if want(ctx, 'reload'):
+        res.append(ovl_stage(ctx, 'reload', 'TestVerifC18Reload', T(ctx, 600, 3000)))
     floors = {'expect:reject': (counters(res, 'expect:reject'), 100), 'expect:accept': (counters(res, 'expect:accept'), 10),
-              'accepted_sets_exercised': (counters(res, 'accepted_sets_exercised'), 30)}
+              'accepted_sets_exercised': (counters(res, 'accepted_sets_exercised'), 30), 'reloads': (counters(res, 'reloads'), 20),
+              'background_requests_answered': (counters(res, 'background_requests_answered'), 100), 'state_probes': (counters(res, 'state_probes'), 100)}
     return finish(ctx, 'exploration', res, COMMON_ASSUME + [
         'parameter values whose memory demand exceeds 256 MiB or whose run time is unbounded (scrypt cost 20..31, argon2id time/length near 2^32) are not generated: their outcome depends on the host',
         'duplicate parameter-set ids are not mentioned by the property and are left unasserted'], floors, t0)
@@ -256,3 +259,19 @@ def c19(ctx, t0):
         'the guarantee is decided on the sequence-numbered event log of the hook goroutine (logical order), not on deadlines; the only timing rule is one-sided (a timer never fires early)',
         '"every change is followed by a start of every eligible hook" is checked after quiescence, i.e. after the timer event that follows the last notification (watchdog 20 x rate limit: expiry = inconclusive)',
         'the checks run as root: permission bits are evaluated as the code does (mode bits), not by the kernel'], floors, t0)
+
+
+@plan('C16')
+def c16(ctx, t0):
+    ctx.build_agent()
+    hx = ctx.build_hx()
+    res = []
+    if want(ctx, 'predicate'):
+        res.append(ctx.run_child('predicate', [hx, 'c16'], T(ctx, 600, 3600)))
+    if want(ctx, 'histories'):
+        res.append(ovl_stage(ctx, 'histories', 'TestVerifC16', T(ctx, 600, 3600)))
+    floors = {'reference_accepts': (counters(res, 'reference_accepts'), 100), 'reference_rejects': (counters(res, 'reference_rejects'), 100), 'init_calls': (counters(res, 'init_calls'), 50),
+              'binary_commands_on_invalid_dirs': (counters(res, 'binary_commands_on_invalid_dirs'), 40), 'invariant_checks': (counters(res, 'invariant_checks'), 500), 'race_attempts': (counters(res, 'race_attempts'), 100)}
+    return finish(ctx, 'exploration', res, COMMON_ASSUME + [
+        'reference predicate in go/hx/c16.go with the sandwich rule for "holds a supported hash" (records without trailing newline are borderline)',
+        'directories are built from valid user names only (the quantifier of the property); names outside the grammar belong to C03'], floors, t0)
